@@ -216,6 +216,7 @@ theorem nostruct_panic_lit {α} (s : String) (h : Structural s = false) : NoStru
 theorem renderDetail_nostruct (h : Heap) (src : List Nat) (off : Nat) (spans : List Span) (ret : String) :
     NoStruct (renderDetail h src off spans ret) := by
   unfold renderDetail
+  simp only []
   repeat' split
   all_goals first
     | exact nostruct_ok _
